@@ -29,6 +29,9 @@ def draw(rng, kinds=("isa", "casc", "corpus", "mut", "isamut"), weights=None):
     if kind in ("isa", "casc"):
         prog, src = gen_isa_source(rng, cascade=(kind == "casc"))
         return {"kind": kind, "files": {"main.asm": src}, "roots": ["main.asm"], "std": False, "tag": kind, "prog": prog}
+    if kind == "deep":
+        prog = G.gen_deep_cascade(rng)
+        return {"kind": kind, "files": {"main.asm": G.render(prog)}, "roots": ["main.asm"], "std": False, "tag": "deep", "prog": prog}
     if kind == "macro":
         from gen import macros
         src, twin, info = macros.gen_pair(rng)
